@@ -44,6 +44,7 @@ class CoreGen:
         self.structs = []   # (sname, [(ty, fname, dims)])
         self.globals = Scope()
         self.label = 0
+        self.in_global = False
         self.statics = set()
         self.stats = {}
         self.features = features or {}
@@ -53,6 +54,8 @@ class CoreGen:
 
     def fresh(self, p):
         self.n += 1
+        if self.features.get("reuse_names") and self.in_global:
+            return "g%s%d" % (p, self.n)
         return "%s%d" % (p, self.n)
 
     # ------------------------------------------------------------ expressions
@@ -69,6 +72,10 @@ class CoreGen:
 
     def leaf(self, sc, pure):
         r = self.r
+        if not pure and self.features.get("effect_leaves") and r.chance(30):
+            self.tk = getattr(self, "tk", 0) + 1
+            self.count("effect_leaf")
+            return "(call t (lit %d) (lit %d))" % (self.tk, r.range(-3, 9))
         k = r.below(10)
         if k < 4 or (not sc.scalars and not self.globals.scalars):
             return lit(self.small_lit())
@@ -256,6 +263,8 @@ class CoreGen:
         k = r.below(10)
         if k < 6 or glob and k < 7:
             ty = r.choice(TYPES) if r.chance(50) else r.choice(["int", "long"])
+            if self.features.get("narrow") and r.chance(70):
+                ty = r.choice(["tiny", "utiny", "short", "ushort", "char", "int", "uint"])
             x = self.fresh("v")
             const = r.chance(8)
             static = (not glob) and r.chance(5) and "no_static" not in self.features
@@ -428,6 +437,8 @@ class CoreGen:
     # ------------------------------------------------------------ functions, program
     def func(self, k):
         r = self.r
+        if self.features.get("reuse_names"):
+            self.n = 0     # every function uses the same local names v1, v2, p1, ...
         name = "f%d" % k
         ret = r.choice(["int", "int", "long", "tiny", "short", "uint", "bool", None])
         sc = Scope()
@@ -441,6 +452,9 @@ class CoreGen:
             lo, hi = RANGE[params[-1][0]]
             params[-1][2] = r.choice([0, 1, 5, hi, lo])
         effectful = r.chance(50)
+        saved_features = self.features
+        if not effectful:
+            self.features = {k: v for k, v in self.features.items() if k != "effect_leaves"}
         budget = [r.range(2, 8)]
         body = []
         saved = self.funcs
@@ -465,6 +479,7 @@ class CoreGen:
                 else:
                     body.append(self.decl(sc))
         self.funcs = saved
+        self.features = saved_features
         if ret:
             fitr = self.fit_strict if "ret_range" in self.gates else self.fit
             if r.chance(30):
@@ -499,7 +514,9 @@ class CoreGen:
                     dims = [r.range(1, 4)] if r.chance(30) else []
                     fs.append((ty, "m%d" % j, dims))
                 self.structs.append(("S%d" % k, fs))
+        self.in_global = True
         gl = [self.decl(self.globals, True) for _ in range(r.range(0, 4))]
+        self.in_global = False
         ftxt = []
         if r.chance(50):
             f, t = self.rec_func()
@@ -509,6 +526,10 @@ class CoreGen:
             f, t = self.func(k)
             self.funcs.append(f)
             ftxt.append(t)
+        if self.features.get("reuse_names"):
+            self.n = 0
+        if self.features.get("effect_leaves"):
+            ftxt.append("(func t int (params (int k) (int v)) ((print (s \"t\") (e (var k))) (ret (var v))))")
         sc = Scope()
         budget = [self.size]
         body = []
